@@ -61,6 +61,16 @@ CLAIMED = {
             'failures must be the module\'s own errors (no RecursionError, no hang).',
             'Trusted: reference type checker in mc/ref.py; theory signature as loaded. Term size <=6 (thorough 7), skeletons <=3 (4) applications.',
             'DESIGN.md §3 C08'),
+    'C07': ('exploration',
+            'bounded exhaustive enumeration of operator/binder nestings x printer configurations on the real printer and parser',
+            'Every operator, binder and special form of the signature of theory real applied to leaves, every such form in every '
+            'argument position of every other form (thorough: depth 3 along the spines), all binder nests of depth<=3 with clashing '
+            'names, polymorphic constants in (un)determined positions, under unicode x line_length{None,20,80} x highlight; types, '
+            'sequents, instantiations and proof steps of every argument signature; print histories with alpha-variants. parse(print(t)) '
+            'must equal t (reference alpha-equality and holpy ==).',
+            'Trusted: mc/ref.py; generated terms are filtered by thy.check_term and the reference type checker (dropped ones are counted). '
+            'Nesting depth 2 (thorough 3).',
+            'DESIGN.md §3 C07'),
 }
 
 PENDING_REASON = 'check not built yet in this round (planned, see DESIGN.md §3/§7); not claimed until its machinery exists'
